@@ -82,7 +82,7 @@ def unhex(h):
 # --------------------------------------------------------------------------------------------------------------
 # part 1+2: basis files
 # --------------------------------------------------------------------------------------------------------------
-PATHS = [("C", ["REP C"], True), ("R", ["REP R"], True), ("D", ["DETACH"], False)]
+PATHS = [("C", ["NEW", "REP C"], True), ("R", ["NEW", "REP R"], True), ("D", ["NEW syncmode=1", "DETACH"], False)]
 
 
 def part_bas(ck, exe, model):
@@ -124,9 +124,16 @@ def part_bas(ck, exe, model):
             # every path, every name mode; the flag alternates to keep the volume down on the enumerated bases
             combos = [(pa, nm, (i + j) % 2) for i, pa in enumerate(PATHS) for j, nm in enumerate((1, 0))] + [r.choice(combos)]
         steps = []
+        z_bounded = any(rows[i] == "Z" and not (p.rows[i][0] is None and p.rows[i][2] is None) for i in range(p.m)) or \
+            any(cols[j] == "Z" and not (p.cols[j][1] is None and p.cols[j][2] is None) for j in range(p.n))
+        if z_bounded:
+            # ZERO on a bounded variable is moved to a bound by setBasis when the LP is in the solver; stored outside the solver it has no
+            # representation in a BAS file (the stricter predicate of C04_set_get_roundtrip / free_ok of C14_bas_roundtrip)
+            combos = [c for c in combos if c[0][2]]
+            ck.count("bas:zero-on-bounded-variable(loaded paths only)")
         for ci, ((pn, pre, loaded), nm, cpx) in enumerate(combos):
             # the outside writer reads _rowTypes, which is maintained only in the sync modes that keep a rational LP
-            htxt += "NEW syncmode=1\nNAMES r %s\nNAMES c %s\n" % (" ".join(rn), " ".join(cn)) + "\n".join(pre) + "\n"
+            htxt += "\n".join(pre) + "\nNAMES r %s\nNAMES c %s\n" % (" ".join(rn), " ".join(cn))
             htxt += "SETB s%d %s %s\nDUMP d%d\nWBAS w%d %d %d\n" % (ci, bc.sarg(rows), bc.sarg(cols), ci, ci, nm, cpx)
             if loaded:
                 htxt += "WBASK k%d %d %d\n" % (ci, nm, cpx)
@@ -190,6 +197,8 @@ def part_bas(ck, exe, model):
                 ck.violation("bas-outside-default-colname-split",
                              "writeBasisFile with the LP outside the solver and no column names writes the default name in two pieces ('x       0' instead of 'x0')",
                              dict(ctx, theorem="C14_outside_writer_agrees"))
+            if broken:
+                continue
             if not end or w["ok"] != "1":
                 ck.violation("bas-file-incomplete", "writeBasisFile returned %s / no ENDATA line" % w["ok"], ctx)
                 continue
@@ -255,8 +264,9 @@ def part_state(ck, exe, model):
         if r.random() < 0.3:
             cfg["timelimit"] = r.choice([1000, 50])
         used = set()
-        rn, cn = rand_names(r, p.m, 8, used), rand_names(r, p.n, 8, used)
+        rn, cn = rand_names(r, p.m, 7, used), rand_names(r, p.n, 7, used)
         names = r.random() < 0.6
+        setfirst = r.random() < 0.6
         readnames = r.random() < 0.8
         start = r.choice(["solve", "solve", "setbasis"])
         cid = "s%d" % k
@@ -268,13 +278,13 @@ def part_state(ck, exe, model):
             htxt += "SETB sb %s %s\n" % (bc.sarg(rows), bc.sarg(cols))
         # basis file round trip on the solved object (statuses must come back, re-solve must agree)
         htxt += "DUMP pre A\nWBAS w %d 0\nRBAS r %d\nDUMP post A\n" % (1 if names else 0, 1 if names else 0)
-        htxt += "STATE st %d 0 %d\nSOLVE resolveA S\n" % (1 if names else 0, 1 if readnames else 0)
-        jobs.append((cid, p, cfg, names, readnames, start, free_row, rn, cn))
+        htxt += "STATE st %d 0 %d %d\nSOLVE resolveA S\n" % (1 if names else 0, 1 if readnames else 0, 1 if setfirst else 0)
+        jobs.append((cid, p, cfg, names, readnames, start, free_row, rn, cn, setfirst))
     rc, hout, herr = bc.run_harness(ck, exe, htxt, "state")
     HB = lpgen.blocks(hout)
     if rc != 0:
         ck.violation("crash:state", "harness crashed in the state-file part (rc=%d)" % rc, {"kind": "crash", "stderr": herr[-400:]}, no_input=True)
-    for (cid, p, cfg, names, readnames, start, free_row, rn, cn) in jobs:
+    for (cid, p, cfg, names, readnames, start, free_row, rn, cn, setfirst) in jobs:
         ls = HB.get(cid)
         if ls is None:
             continue
@@ -283,6 +293,7 @@ def part_state(ck, exe, model):
             t = l.split()
             L.setdefault(t[0] + ":" + (t[1] if len(t) > 1 else ""), l)
         ctx = {"lp": p.text(cid), "lp_format": p.lp_format(), "config": cfg, "user_names": names, "names_passed_to_reader": readnames, "start": start,
+               "load_order": "settings, LP, basis" if setfirst else "LP, basis, settings",
                "row_names": rn, "col_names": cn, "observed": [x[:600] for x in ls]}
         ck.count("state:start:" + start)
         # (a) basis file round trip after a solve
@@ -326,9 +337,16 @@ def part_state(ck, exe, model):
                 if not all(same(x, y) for x, y in zip(xa, xb)):
                     bad = nm_ + " differs"
             sgn = -1 if a.sense == 1 else 1
-            if b.sense != -1:
+            if a.sense == 1 and not setfirst:
+                # the MPS file holds min -c.x, the settings file restores objsense = maximize afterwards: max -c.x
+                if b.sense == 1 and any(x != 0 for x in a.obj) and all(same(-x, y) for x, y in zip(a.obj, b.obj)):
+                    ck.violation("state-max-objective-negated:settings-loaded-last",
+                                 "state files of a maximisation problem loaded in the order LP, basis, settings give max -c.x (the MPS writer inverts the "
+                                 "objective, the settings file restores objsense = maximize)", ctx)
+                    continue
+            if b.sense != -1 and any(x != 0 for x in a.obj):
                 bad = "objective sense of the reloaded LP is %d (MPS files are minimisation problems)" % b.sense
-            if not all(same(sgn * x, y) for x, y in zip(a.obj, b.obj)):
+            elif not all(same((sgn if b.sense == -1 else 1) * x, y) for x, y in zip(a.obj, b.obj)):
                 bad = "objective differs"
             if set(a.A) != set(b.A) or not all(same(a.A[k], b.A[k]) for k in a.A):
                 bad = "matrix differs"
@@ -363,7 +381,7 @@ def part_state(ck, exe, model):
                                  "the restored solver ends %s, the original %s" % (sb["status"], sa["status"]), ctx)
                 elif sa["status"] == "OPTIMAL":
                     va, vb = lpgen.dy2fr(sa["obj"]), lpgen.dy2fr(sb["obj"])
-                    exp = va if a.sense == -1 else -(va - a.off) + a.off
+                    exp = va if (a.sense == -1 or b.sense == 1) else -(va - a.off) + a.off
                     if abs(float(exp - vb)) > OBJ_TOL * (1 + abs(float(exp))):
                         ck.violation("state-resolve-free-nonbasic-row" if free_nb_row else "state-resolve-objective",
                                      "the restored solver reaches %s, expected %s" % (float(vb), float(exp)), ctx)
